@@ -157,5 +157,4 @@ theorem sound_approx : Sound suggestApprox := by
   refine ⟨by simp, ?_, t - b, Or.inr (by simp), b, Or.inl hb, by omega⟩
   intro x hx; simp at hx; subst hx; omega
 
-#print axioms sound_approx
 end P
